@@ -73,7 +73,19 @@ class Known:
                         self.by[(cpu, m["kind"], mn, m.get("signature", "*"))] = f["id"]
 
     def match(self, cpu, kind, mn, sig="*"):
-        return self.by.get((cpu, kind, mn, sig)) or self.by.get((cpu, kind, mn, "*")) or self.by.get((cpu, kind, "*", "*"))
+        return (self.by.get((cpu, kind, mn, sig)) or self.by.get((cpu, kind, mn, "*")) or
+                self.by.get((cpu, kind, "*", sig)) or self.by.get((cpu, kind, "*", "*")))
+
+
+def refix_signature(want_hex, got_hex):
+    """how the re-assembled bytes differ from the emitted ones: a known disagreement of one shape (say: the
+    disassembler shows a 16-bit offset that the assembler re-encodes in the short form) must not hide a different
+    one on the same mnemonic"""
+    if len(got_hex) < len(want_hex):
+        return "shorter"
+    if len(got_hex) > len(want_hex):
+        return "longer"
+    return "samelen"
 
 
 def scan(w, s, name, tier, kinds_wanted, known, prop, survey, align=0):
@@ -151,6 +163,9 @@ def scan(w, s, name, tier, kinds_wanted, known, prop, survey, align=0):
         elif kind in ("c01_walk", "c01_refix"):
             p, tail, t1, detail = int(f[1]), int(f[2]), f[3], f[4]
             mn = norm(t1).split()[0] if norm(t1).split() else "?"
+            if kind == "c01_refix" and " vs " in detail:
+                h2, h3 = detail.split(" vs ", 1)
+                mn = mn + "/" + refix_signature(h2.strip(), h3.strip())
             groups.setdefault((kind, mn), []).append(dict(pattern=p, tail=tail, text=t1, detail=detail))
     out = []
     for (kind, mn), lst in sorted(groups.items()):
